@@ -387,7 +387,7 @@ pub fn leaf_alphabet() -> Vec<Value> {
 pub fn name_alphabet() -> Vec<&'static str> {
     vec![
         "a", "ab", "", " ", "\u{e9}", "\u{1F600}", "x\"y", "x\\y", "iss", "exp", "cnf", "_sdx", "_s", "..", "....", "a.b",
-        "a[0]", "a,b", "a\":b", "[0]", "$", "~",
+        "a[0]", "a,b", "a\":b", "[0]", "$", "~", "\u{0}", "\u{1f}", "\u{8}\u{c}", "a\nb", "\t", "\u{7f}", "\u{80}", "\u{2028}",
     ]
 }
 /// Member names usable under Custom (free of '.' and '[' and non-empty).
